@@ -274,7 +274,21 @@ func fullRangeIndex(v ssa.Value) (int64, bool) {
 			if k, isc := constOf(e); isc && k == 0 {
 				if bo, ok := stripConv(ph.Edges[1-i]).(*ssa.BinOp); ok && bo.Op == token.ADD && stripConv(bo.X) == ssa.Value(ph) {
 					if one, isc := constOf(bo.Y); isc && one == 1 {
-						return loopBound(ph.Block(), v)
+						if n, ok := loopBound(ph.Block(), v); ok {
+							return n, true
+						}
+						// rotated form (go/ssa's `for i := range n`): the test `phi+1 < n` sits at the bottom of the body
+						// and leads back to it; the entry is guarded by the constant test `0 < n`
+						blk := bo.Block()
+						if len(blk.Instrs) > 0 {
+							if iff, ok := blk.Instrs[len(blk.Instrs)-1].(*ssa.If); ok && blk.Succs[0] == ph.Block() {
+								if cmp, ok := iff.Cond.(*ssa.BinOp); ok && cmp.Op == token.LSS && stripConv(cmp.X) == ssa.Value(bo) {
+									if n, isc := constOf(cmp.Y); isc && n > 0 {
+										return n, true
+									}
+								}
+							}
+						}
 					}
 				}
 			}
